@@ -104,7 +104,7 @@ def run_tsan_job(a):
 
 
 def main():
-    cr = CheckRun("C02", "model_checking", default_budget=(420, 3000))
+    cr = CheckRun("C02", "model_checking", default_budget=(900, 6000))
     with build.Scratch("C02") as sd:
         exe = sched.build_bp_explorer(sd)
         if cr.replay:
@@ -120,7 +120,7 @@ def main():
         per = []
 
         # ---- 0. cross-validation of state-hash pruning (verdict + outcome must agree with un-hashed bounded exploration)
-        for hargs, b in (([2, 3, "+q5"], 2), ([2, 3, "a1"], 2)):
+        for hargs, b in (([2, 3, "+q5"], 1), ([2, 3, "a1"], 2)):
             j1, r1 = sched.explore(exe, hargs, bound=b, nohash=True, deadline=60)
             j2, r2 = sched.explore(exe, hargs, bound=b)
             if j1 is None or j2 is None:
@@ -158,10 +158,10 @@ def main():
         small = [c for c in plan if c[0] <= 2]
         big = [c for c in plan if c[0] > 2]
         results = []
-        with ThreadPoolExecutor(4) as ex:
-            results += list(ex.map(lambda c: run_cfg(c, 4), small))
         for c in big:
             results.append(run_cfg(c, 16))
+        with ThreadPoolExecutor(4) as ex:
+            results += list(ex.map(lambda c: run_cfg(c, 4), small))
         ncomplete = 0
         for c, res in results:
             w, bl, s, mode = c
